@@ -358,4 +358,78 @@ def deleteRow4 (a : A4 Int) (i : Int) : Except String (A4 Int) :=
   | some k => pure ⟨a.r - 1, a.d, a.c, a.v.eraseIdx k⟩
   | none => throw "IndexError"
 
+/-! ### vocabulary of the translated neighbor-path code (`GenN`) -/
+
+/-- an `ATally` value as `compute_shapley_add` reads it (`tupletally` / the label tallies of the invalid value are never read: `is_inf` is tested first) -/
+structure Tally where
+  is_inf : Bool
+  tupletally : Int
+  labeltally_with : List Int
+  labeltally_without : List Int
+deriving Repr, Inhabited
+
+/-- `itertools.product(a, chain(b, [None]))` -/
+def productChainNone (a b : List Int) : List (Int × Option Int) :=
+  a.flatMap (fun x => (b.map some ++ [none]).map (fun y => (x, y)))
+
+/-- `np.argmax` of an integer vector: first index of the maximum -/
+def argmaxI : List Int → Int
+  | [] => 0
+  | x :: xs =>
+      let rec go (best : Int) (bi : Nat) (i : Nat) : List Int → Nat
+        | [] => bi
+        | y :: ys => if y > best then go y i (i + 1) ys else go best bi (i + 1) ys
+      ((go x 0 1 xs : Nat) : Int)
+
+/-- `np.argmin` of a vector of scalars: first index of the minimum -/
+def argminF [LT α] [DecidableRel (α := α) (· < ·)] : List α → Int
+  | [] => 0
+  | x :: xs =>
+      let rec go (best : α) (bi : Nat) (i : Nat) : List α → Nat
+        | [] => bi
+        | y :: ys => if y < best then go y i (i + 1) ys else go best bi (i + 1) ys
+      ((go x 0 1 xs : Nat) : Int)
+
+/-- `l[mask]` with a Boolean mask of the same length -/
+def maskSel (l : List β) (m : List Bool) : List β := ((l.zip m).filter (fun x => x.2)).map (fun x => x.1)
+/-- `a[mask]`: the rows of a 2-D array selected by a Boolean mask -/
+def maskRows (a : A2 β) (m : List Bool) : A2 β := let rows := maskSel a.d m; ⟨rows.length, a.c, rows⟩
+/-- `np.argmin(a, axis=0)`: per column the first row of the minimum -/
+def argmin0 [Inhabited α] [LT α] [DecidableRel (α := α) (· < ·)] (a : A2 α) : List Int :=
+  (List.range a.c).map (fun (j : Nat) => argminF (col a (j : Int)))
+/-- `a[i, :] = x` -/
+def setRowConst (a : A2 β) (i : Int) (x : β) : A2 β := ⟨a.r, a.c, set1 a.d i (List.replicate a.c x)⟩
+/-- `a[i, j] = x` -/
+def set2 (a : A2 β) (i j : Int) (x : β) : A2 β :=
+  match pyIdx a.d.length i with
+  | some k => ⟨a.r, a.c, a.d.set k (set1 (a.d.getD k []) j x)⟩
+  | none => a
+/-- `np.broadcast_to(np.expand_dims(l, axis=1), (r, c))` for `len(l) = r` -/
+def broadcastCols (l : List β) (r c : Int) : A2 β := ⟨r.toNat, c.toNat, l.map (fun x => List.replicate c.toNat x)⟩
+
+/-! ### vocabulary of the translated decision-diagram operations (`GenD`): nested-list arrays of 2 and 3 dimensions -/
+
+/-- `a[i, j]` on a 2-D nested list -/
+def getL2 [Inhabited β] (a : List (List β)) (i j : Int) : β := get1 (get1 a i) j
+/-- `a[i, j] = x` -/
+def setL2 (a : List (List β)) (i j : Int) (x : β) : List (List β) :=
+  match pyIdx a.length i with
+  | some k => a.set k (set1 (a.getD k []) j x)
+  | none => a
+/-- `a[i, j, k] = x` -/
+def set3 (a : List (List (List β))) (i j k : Int) (x : β) : List (List (List β)) :=
+  match pyIdx a.length i with
+  | some r => a.set r (setL2 (a.getD r []) j k x)
+  | none => a
+/-- `np.zeros((r, c), dtype=int)` -/
+def zerosL2 (r c : Int) : List (List Int) := List.replicate r.toNat (List.replicate c.toNat (0 : Int))
+/-- `a[:, j] = x` -/
+def setColL2 (a : List (List β)) (j : Int) (x : β) : List (List β) := a.map (fun row => set1 row j x)
+/-- position of `x` in `l` (the value a dictionary built by `dict((u, i) for i, u in enumerate(l))` holds for a key that is present) -/
+def indexOf (l : List Int) (x : Int) : Int := ((l.idxOf x : Nat) : Int)
+/-- `np.delete(a, i, axis=0)` / `list.pop(i)` for `0 ≤ i < len` -/
+def deleteAt (l : List β) (i : Int) : List β := l.eraseIdx i.toNat
+/-- `b ** e` for a non-negative integer exponent -/
+def ipow (b e : Int) : Int := b ^ e.toNat
+
 end Np
